@@ -329,4 +329,216 @@ theorem dSource_toks (s : Source) (f : Nat) (hf : (match s with | .tags _ => 0 |
     simp only [toksSource, h1, dSource, h2', Bool.false_eq_true, if_false]
     rw [← h1, he]; rfl
 
+
+/-! ### TRUNCATE: token-level round trip of the whole statement -/
+
+/-- a size the parser can produce: its decimal text is read back to it by `humanize.ParseBytes` (true for every uint64
+that is a float64 value — `ParseBytes` computes in float64, so every `Size` in the parser's image is one; checked on
+every parsed TRUNCATE by the harness), and that text is not mistaken for an operator or a parenthesis -/
+def sizeOK (n : Nat) : Bool :=
+  parseBytes (decNat n) == some n && !isOpTok ⟨.number, decNat n⟩ && !litMatch ⟨.number, decNat n⟩ LP
+
+/-- the printed date text is not mistaken for an operator or a parenthesis -/
+def dateTokOK (rd : Int → Bytes) (v : Int) : Bool := !isOpTok ⟨.string, rd v⟩ && !litMatch ⟨.string, rd v⟩ LP
+
+def optAll {α} (p : α → Bool) : Option α → Bool
+  | none => true
+  | some a => p a
+
+/-- the parser's image of `Truncate` (decidable) -/
+def wfTruncate (rd : Int → Bytes) (t : Truncate) : Bool :=
+  optAll wfSource t.source && optAll sizeOK t.minSize && optAll sizeOK t.maxSize && optAll sizeOK t.maxDbSize
+  && optAll (dateTokOK rd) t.before
+  && (t.dryRun || headNot kwDRYRUN (optSourceToks t.source ++ clauseToks rd t))
+
+/-- the recorded contract of the date functions (C20's side of the boundary): the date parser reads the printed text
+of the statement's BEFORE instant back to that instant -/
+def DateContract (dp : Bytes → Option Int) (rd : Int → Bytes) (t : Truncate) : Prop :=
+  ∀ v, t.before = some v → dp (rd v) = some v
+
+theorem dSizeClause_toks (kw : Bytes) (hk : litMatch (tKw kw) kw = true) (o : Option Nat) (rest : List Tok)
+    (ho : optAll sizeOK o = true) (hr : o = none → headNot kw rest = true) :
+    dSizeClause kw (sizeToks kw o ++ rest) = some (o, rest) := by
+  cases o with
+  | none =>
+    cases rest with
+    | nil => simp [sizeToks, dSizeClause]
+    | cons t r =>
+      have : litMatch t kw = false := by simpa [headNot] using hr rfl
+      simp [sizeToks, dSizeClause, this]
+  | some n =>
+    have h : parseBytes (decNat n) = some n := by
+      have := ho; simp only [optAll, sizeOK, Bool.and_eq_true, beq_iff_eq] at this; exact this.1.1
+    simp [sizeToks, dSizeClause, hk, h]
+
+theorem dDateClause_toks (dp : Bytes → Option Int) (rd : Int → Bytes) (o : Option Int) (rest : List Tok)
+    (ho : ∀ v, o = some v → dp (rd v) = some v) (hr : o = none → headNot kwBEFORE rest = true) :
+    dDateClause dp kwBEFORE (beforeToks rd o ++ rest) = some (o, rest) := by
+  cases o with
+  | none =>
+    cases rest with
+    | nil => simp [beforeToks, dDateClause]
+    | cons t r =>
+      have : litMatch t kwBEFORE = false := by simpa [headNot] using hr rfl
+      simp [beforeToks, dDateClause, this]
+  | some v =>
+    have hk : litMatch (tKw kwBEFORE) kwBEFORE = true := by decide
+    simp [beforeToks, dDateClause, hk, ho v rfl]
+
+theorem isOperandTok_tKw (k : Bytes) : isOperandTok (tKw k) = true := by simp [isOperandTok, tKw]
+
+theorem dExpr_nil (f : Nat) : dExpr f [] = none := by
+  cases f with
+  | zero => simp [dExpr]
+  | succ f => cases f with
+    | zero => simp [dExpr, dOr]
+    | succ f => cases f with
+      | zero => simp [dExpr, dOr, dX]
+      | succ f => simp [dExpr, dOr, dX]
+
+/-- a clause (`KW number` / `BEFORE "date"`) is not the beginning of a source expression -/
+theorem dExpr_clause_none (f : Nat) (k : Bytes) (x : Tok) (rest : List Tok) (hn : litMatch (tKw k) kwNOT = false)
+    (hl : litMatch x LP = false) (ho : isOpTok x = false) : dExpr f (tKw k :: x :: rest) = none := by
+  have hid : ∀ g, dIdent g (tKw k :: x :: rest) = none ∨ dIdent g (tKw k :: x :: rest) = some (.mk (tKw k).v .nil, x :: rest) := by
+    intro g; cases g with
+    | zero => left; simp [dIdent]
+    | succ g => right; simp [dIdent, isOperandTok_tKw, hl]
+  have hc : ∀ g, dCond g (tKw k :: x :: rest) = none := by
+    intro g
+    rcases hid g with h | h
+    · simp [dCond, h]
+    · cases rest with
+      | nil => simp [dCond, h]
+      | cons v r => simp [dCond, h, ho]
+  have hb : ∀ g, dXBody g false (tKw k :: x :: rest) = none := by
+    intro g; cases g with
+    | zero => simp [dXBody]
+    | succ g => simp [dXBody, isOperandTok_tKw, hc]
+  have hx : ∀ g, dX g (tKw k :: x :: rest) = none := by
+    intro g; cases g with
+    | zero => simp [dX]
+    | succ g => simp [dX, hn, hb]
+  have hor : ∀ g, dOr g (tKw k :: x :: rest) = none := by
+    intro g; cases g with
+    | zero => simp [dOr]
+    | succ g => simp [dOr, hx]
+  cases f with
+  | zero => simp [dExpr]
+  | succ f => simp [dExpr, hor]
+
+def clauseKws : List Bytes := [kwMINSIZE, kwMAXSIZE, kwBEFORE, kwMAXDBSIZE]
+
+theorem clauseKw_facts (k : Bytes) (h : k ∈ clauseKws) :
+    litMatch (tKw k) kwNOT = false ∧ litMatch (tKw k) kwOR = false ∧ litMatch (tKw k) kwAND = false ∧ (tKw k).t ≠ .tags := by
+  simp only [clauseKws, List.mem_cons, List.not_mem_nil, or_false] at h
+  rcases h with rfl | rfl | rfl | rfl <;> decide
+
+/-- the clause tokens are empty or start with a clause keyword followed by a harmless token -/
+theorem clauseToks_shape (rd : Int → Bytes) (t : Truncate)
+    (h1 : optAll sizeOK t.minSize = true) (h2 : optAll sizeOK t.maxSize = true) (h3 : optAll sizeOK t.maxDbSize = true)
+    (h4 : optAll (dateTokOK rd) t.before = true) :
+    clauseToks rd t = [] ∨ ∃ k x r, clauseToks rd t = tKw k :: x :: r ∧ k ∈ clauseKws ∧ litMatch x LP = false ∧ isOpTok x = false := by
+  have sz : ∀ n, sizeOK n = true → litMatch ⟨.number, decNat n⟩ LP = false ∧ isOpTok ⟨.number, decNat n⟩ = false := by
+    intro n h; simp only [sizeOK, Bool.and_eq_true, Bool.not_eq_true'] at h; exact ⟨h.2, h.1.2⟩
+  cases hmn : t.minSize with
+  | some n =>
+    right; rw [hmn] at h1
+    exact ⟨kwMINSIZE, ⟨.number, decNat n⟩, sizeToks kwMAXSIZE t.maxSize ++ (beforeToks rd t.before ++ sizeToks kwMAXDBSIZE t.maxDbSize),
+      by rw [clauseToks, hmn]; rfl, by simp [clauseKws], (sz n h1).1, (sz n h1).2⟩
+  | none =>
+    cases hmx : t.maxSize with
+    | some n =>
+      right; rw [hmx] at h2
+      exact ⟨kwMAXSIZE, ⟨.number, decNat n⟩, beforeToks rd t.before ++ sizeToks kwMAXDBSIZE t.maxDbSize,
+        by rw [clauseToks, hmn, hmx]; rfl, by simp [clauseKws], (sz n h2).1, (sz n h2).2⟩
+    | none =>
+      cases hbf : t.before with
+      | some v =>
+        right; rw [hbf] at h4
+        have h4' : isOpTok ⟨.string, rd v⟩ = false ∧ litMatch ⟨.string, rd v⟩ LP = false := by
+          simpa [optAll, dateTokOK] using h4
+        exact ⟨kwBEFORE, ⟨.string, rd v⟩, sizeToks kwMAXDBSIZE t.maxDbSize,
+          by rw [clauseToks, hmn, hmx, hbf]; rfl, by simp [clauseKws], h4'.2, h4'.1⟩
+      | none =>
+        cases hdb : t.maxDbSize with
+        | some n =>
+          right; rw [hdb] at h3
+          exact ⟨kwMAXDBSIZE, ⟨.number, decNat n⟩, [],
+            by rw [clauseToks, hmn, hmx, hbf, hdb]; rfl, by simp [clauseKws], (sz n h3).1, (sz n h3).2⟩
+        | none => left; rw [clauseToks, hmn, hmx, hbf, hdb]; rfl
+
+theorem dOptSource_toks (f : Nat) (src : Option Source) (c : List Tok)
+    (hf : (match src with | some (.expr e) => szExpr e | _ => 0) ≤ f) (hw : optAll wfSource src = true)
+    (hc : c = [] ∨ ∃ k x r, c = tKw k :: x :: r ∧ k ∈ clauseKws ∧ litMatch x LP = false ∧ isOpTok x = false) :
+    dOptSource f (optSourceToks src ++ c) = some (src, c) := by
+  have hOR : headNot kwOR c = true ∧ headNot kwAND c = true := by
+    rcases hc with rfl | ⟨k, x, r, rfl, hk, _, _⟩
+    · simp [headNot]
+    · have := clauseKw_facts k hk; simp [headNot, this.2.1, this.2.2.1]
+  cases src with
+  | none =>
+    rcases hc with rfl | ⟨k, x, r, rfl, hk, hl, ho⟩
+    · simp [optSourceToks, dOptSource]
+    · have hk' := clauseKw_facts k hk
+      have ht : ((tKw k).t == TT.tags) = false := by simpa using hk'.2.2.2
+      simp [optSourceToks, dOptSource, ht, dExpr_clause_none f k x r hk'.1 hl ho]
+  | some s =>
+    cases s with
+    | tags m =>
+      have : KV.tagParse (KV.LB :: (KV.line m ++ [KV.RB])) = some m := by simpa [optAll, wfSource] using hw
+      simp [optSourceToks, toksSource, dOptSource, this]
+    | expr e =>
+      have hw' : wfExpr e = true := by simpa [optAll, wfSource] using hw
+      have he := dExpr_toks e f c (by simpa using hf) hw' hOR.1 hOR.2
+      obtain ⟨t, r, h1, h2⟩ := toksExpr_head e hw'
+      have h2' : (t.t == TT.tags) = false := by simpa using h2
+      have hshape : optSourceToks (some (.expr e)) ++ c = t :: (r ++ c) := by simp [optSourceToks, toksSource, h1]
+      rw [hshape, dOptSource]
+      simp only [h2', Bool.false_eq_true, if_false]
+      rw [← List.cons_append, ← h1, he]
+
+theorem dDryRun_toks (dry : Bool) (rest : List Tok) (h : dry = true ∨ headNot kwDRYRUN rest = true) :
+    dDryRun ((if dry then [tKw kwDRYRUN] else []) ++ rest) = (dry, rest) := by
+  cases dry with
+  | true =>
+    have : litMatch (tKw kwDRYRUN) kwDRYRUN = true := by decide
+    simp [dDryRun, this]
+  | false =>
+    have h' : headNot kwDRYRUN rest = true := by rcases h with h | h; cases h; exact h
+    cases rest with
+    | nil => simp [dDryRun]
+    | cons t r =>
+      have : litMatch t kwDRYRUN = false := by simpa [headNot] using h'
+      simp [dDryRun, this]
+
+theorem headNot_clause_tail (kw : Bytes) (l : List Tok)
+    (h : l = [] ∨ ∃ k x r, l = tKw k :: x :: r ∧ litMatch (tKw k) kw = false) : headNot kw l = true := by
+  rcases h with rfl | ⟨k, x, r, rfl, hk⟩
+  · simp [headNot]
+  · simp [headNot, hk]
+
+/-- **the direct parser inverts `tokensOf` on every TRUNCATE statement in the parser's image**, given the date
+contract for its BEFORE instant -/
+theorem dTruncate_toks (dp : Bytes → Option Int) (rd : Int → Bytes) (t : Truncate) (f : Nat)
+    (hf : (match t.source with | some (.expr e) => szExpr e | _ => 0) ≤ f)
+    (hw : wfTruncate rd t = true) (hd : DateContract dp rd t) :
+    directTruncateFuel dp f (toksTruncate rd t) = some t := by
+  simp only [wfTruncate, Bool.and_eq_true, Bool.or_eq_true] at hw
+  obtain ⟨⟨⟨⟨⟨hsrc, hmn⟩, hmx⟩, hdb⟩, hbf⟩, hdry⟩ := hw
+  have hT : litMatch (tKw kwTRUNCATE) kwTRUNCATE = true := by decide
+  have h1 := dDryRun_toks t.dryRun (optSourceToks t.source ++ clauseToks rd t) hdry
+  have h2 := dOptSource_toks f t.source (clauseToks rd t) hf hsrc (clauseToks_shape rd t hmn hmx hdb hbf)
+  -- the clause chain
+  have c4 := dSizeClause_toks kwMAXDBSIZE (by decide) t.maxDbSize [] hdb (by intro _; simp [headNot])
+  have c3 := dDateClause_toks dp rd t.before (sizeToks kwMAXDBSIZE t.maxDbSize ++ []) (fun v hv => hd v hv) (by
+    intro _; cases t.maxDbSize <;> simp [sizeToks, headNot] <;> decide)
+  have c2 := dSizeClause_toks kwMAXSIZE (by decide) t.maxSize (beforeToks rd t.before ++ (sizeToks kwMAXDBSIZE t.maxDbSize ++ [])) hmx (by
+    intro _; cases t.before <;> cases t.maxDbSize <;> simp [sizeToks, beforeToks, headNot] <;> decide)
+  have c1 := dSizeClause_toks kwMINSIZE (by decide) t.minSize
+    (sizeToks kwMAXSIZE t.maxSize ++ (beforeToks rd t.before ++ (sizeToks kwMAXDBSIZE t.maxDbSize ++ []))) hmn (by
+    intro _; cases t.maxSize <;> cases t.before <;> cases t.maxDbSize <;> simp [sizeToks, beforeToks, headNot] <;> decide)
+  simp only [List.append_nil] at c1 c2 c3 c4
+  simp only [toksTruncate, directTruncateFuel, hT, if_true, dTruncBody, h1, h2]
+  simp only [clauseToks, c1, c2, c3, c4]
+
 end Logrange.Lql
